@@ -41,6 +41,7 @@ def make_client(framing, rx=b"", retries=0, retry_on_empty=False, retry_on_inval
         def close(self):
             self.closed += 1
             self.events.append(("close",))
+            self.rx = b""              # whatever was still in flight on a closed connection is gone
 
         def _send(self, request):
             self.events.append(("send", request))
